@@ -366,6 +366,8 @@ package main
 //@   modifies inferred
 //@   ensures [C17] next_term: c.fo.term == old(c.fo.term) + 1
 //@   ensures [C17] self_or_none: c.fo.leader == "" || c.fo.leader == c.thisNodeName
+// (the replies counted are replies to this election's own requests: they arrive on a channel made for this election)
+//@   assert at call callAsync [C17] replies_on_a_channel_of_this_election: fresh($4)
 //@   assert at call statsSet#2 [C17] majority: voteCount >= expectVotes && 2 * expectVotes > nodeCount + 1 && nodeCount == len(c.nodes)
 //@   loop 2
 //@     invariant votes: voteCount >= 0 && expectVotes == (nodeCount + 1) / 2 + 1 && nodeCount == len(c.nodes)
@@ -1111,3 +1113,14 @@ package main
 //@   ensures [C07] anonymous_gets_nothing: !authUser ==> res == types.ModeNone
 //@   ensures [C06,C07] no_default_ownership: (res & types.ModeOwner) == 0
 //@   ensures [C07] p2p_default_within_p2p: cat == types.TopicCatP2P ==> (res & ^types.ModeCP2P) == 0
+
+// C17: the leader's health-check round. A follower that reaches the failure limit in this round, or comes back after
+// having reached it, makes the leader recompute the set of live nodes - whatever the other followers do in the same
+// round (the decision is never taken back by a later follower).
+//@ func (c *Cluster) sendHealthChecks()
+//@   requires [C17] c != nil && c.fo != nil
+//@   requires [C17,assumed] configured: c.fo.nodeFailCountLimit > 0
+//@   modifies *
+//@   loop 1
+//@     iterates [C17] decision_is_sticky: prev(rehash) ==> rehash
+//@     iterates [C17] failing_node_triggers_rehash: node != nil && !prev(rehash) && !rehash ==> node.failCount != c.fo.nodeFailCountLimit
